@@ -16,13 +16,17 @@ namespace SE.Relational
 
 abbrev Id := String
 
+/- The validators only ever compare identifiers for equality (`==`, membership in a `set`), so
+   they are written over any type with decidable equality: the property theorems instantiate it
+   with `Id` (uuids as text), the symbolic ties of the check with `Rat` (symbolic identifiers). -/
+
 /-- `set(xs)` as a duplicate-free list (only its length and its members are ever used) -/
-def toSet : List Id → List Id
+def toSet {α : Type} [DecidableEq α] : List α → List α
   | [] => []
   | x :: xs => if x ∈ xs then toSet xs else x :: toSet xs
 
 /-- `set(xs) == set(ys)` -/
-def setEq (xs ys : List Id) : Bool := xs.all (· ∈ ys) && ys.all (· ∈ xs)
+def setEq {α : Type} [DecidableEq α] (xs ys : List α) : Bool := xs.all (· ∈ ys) && ys.all (· ∈ xs)
 
 /-! ### field constraints -/
 
@@ -74,7 +78,7 @@ structure MatchRow where
   deriving DecidableEq, Repr
 
 /-- `Match._validate_match`: reject when neither side is given -/
-def matchSidesOk (source target : Option Id) : Bool := !(source.isNone && target.isNone)
+def matchSidesOk {α : Type} (source target : Option α) : Bool := !(source.isNone && target.isNone)
 
 /-- a `Match` can be constructed -/
 def matchOk (m : MatchRow) : Bool :=
@@ -83,10 +87,10 @@ def matchOk (m : MatchRow) : Bool :=
 /-! ### clip evaluations -/
 
 /-- `_check_clips_match` -/
-def clipsMatch (annClip predClip : Id) : Bool := !(annClip != predClip)
+def clipsMatch {α : Type} [DecidableEq α] (annClip predClip : α) : Bool := !(annClip != predClip)
 
 /-- `_check_matches`, cascade of `raise`s in the order of the code -/
-def checkMatches (annIds predIds : List Id) (ms : List (Option Id × Option Id)) : Bool :=
+def checkMatches {α : Type} [DecidableEq α] (annIds predIds : List α) (ms : List (Option α × Option α)) : Bool :=
   let annotated := toSet annIds
   let predicted := toSet predIds
   let targets := ms.filterMap (·.2)
@@ -100,7 +104,8 @@ def checkMatches (annIds predIds : List Id) (ms : List (Option Id × Option Id))
   else true
 
 /-- both after-validators of `ClipEvaluation` -/
-def clipEvalOk (annClip predClip : Id) (annIds predIds : List Id) (ms : List (Option Id × Option Id)) : Bool :=
+def clipEvalOk {α : Type} [DecidableEq α] (annClip predClip : α) (annIds predIds : List α)
+    (ms : List (Option α × Option α)) : Bool :=
   clipsMatch annClip predClip && checkMatches annIds predIds ms
 
 /-- a whole arrangement: the clip annotation, the clip prediction, the matches with their
@@ -125,7 +130,7 @@ def ClipEvalArr.accepted (a : ClipEvalArr) : Bool :=
 
 /-- `_annotations_are_part_of_the_project`: the loop raises at the first annotated clip whose
     clip is not the clip of a task -/
-def projectOk (taskClips : List Id) : List Id → Bool
+def projectOk {α : Type} [DecidableEq α] (taskClips : List α) : List α → Bool
   | [] => true
   | c :: cs => if c ∈ toSet taskClips then projectOk taskClips cs else false
 
@@ -133,5 +138,75 @@ def projectOk (taskClips : List Id) : List Id → Bool
 
 /-- `Clip._validate_times`: raise when `start_time > end_time` -/
 def clipOk (startTime endTime : Rat) : Bool := !(decide (startTime > endTime))
+
+/-! ### binary64 values that are not rationals
+
+`float` fields accept `nan` and `±inf` (pydantic's default `allow_inf_nan`), so the constraints
+and the clip-time comparison are also stated over the extended values, with the comparisons of
+IEEE 754 (every comparison with `nan` is false). -/
+
+inductive F where
+  | fin (q : Rat)
+  | pinf
+  | ninf
+  | nan
+  deriving DecidableEq, Repr
+
+/-- `a <= b` of two floats -/
+def F.le : F → F → Bool
+  | .nan, _ => false
+  | _, .nan => false
+  | .ninf, _ => true
+  | _, .pinf => true
+  | .fin a, .fin b => decide (a ≤ b)
+  | .pinf, _ => false
+  | _, .ninf => false
+
+/-- `a > b` of two floats -/
+def F.gt : F → F → Bool
+  | .nan, _ => false
+  | _, .nan => false
+  | .pinf, .pinf => false
+  | .pinf, _ => true
+  | .ninf, _ => false
+  | .fin _, .pinf => false
+  | .fin _, .ninf => true
+  | .fin a, .fin b => decide (a > b)
+
+/-- `Field(ge=0, le=1)` applied to a float: `x >= 0` and `x <= 1` must both be true -/
+def unitOkF (x : F) : Bool := F.le (.fin 0) x && F.le x (.fin 1)
+
+def optUnitOkF : Option F → Bool
+  | none => true
+  | some x => unitOkF x
+
+/-- `Clip._validate_times` on floats: raise when `start_time > end_time` is true -/
+def clipOkF (startTime endTime : F) : Bool := !(F.gt startTime endTime)
+
+/-! ### the numbers on the AOEF path
+
+`soundevent.io.load` builds every object with the constructor of its data class
+(`XAdapter.assemble_soundevent`); these are the numbers of the AOEF object as the adapter hands
+them to the constructor (tied to the adapters by symbolic traces: unchanged, not swapped, not
+clamped), and the decision of the constructor on them. -/
+
+/-- `ClipAdapter.assemble_soundevent`: `(start_time, end_time)` handed to `data.Clip` -/
+def aoefClipArgs (startTime endTime : Rat) : Rat × Rat := (startTime, endTime)
+/-- `MatchAdapter.assemble_soundevent`: `(affinity, score)` handed to `data.Match` -/
+def aoefMatchArgs (affinity score : Rat) : Rat × Rat := (affinity, score)
+/-- `ClipEvaluationAdapter.assemble_soundevent`: `score` handed to `data.ClipEvaluation` -/
+def aoefEvalScoreArg (score : Rat) : Rat := score
+/-- `SoundEventPredictionAdapter` / `SequencePredictionAdapter.assemble_soundevent` on an object with
+    two tags: the score handed to the prediction and the scores handed to each `data.PredictedTag` -/
+def aoefPredictionArgs (score tag0 tag1 : Rat) : Rat × Rat × Rat := (score, tag0, tag1)
+/-- `ClipPredictionsAdapter.assemble_soundevent` on an object with two tags -/
+def aoefClipTagArgs (tag0 tag1 : Rat) : Rat × Rat := (tag0, tag1)
+
+def aoefClipOk (s e : Rat) : Bool := clipOk (aoefClipArgs s e).1 (aoefClipArgs s e).2
+def aoefMatchNumbersOk (a sc : Rat) : Bool := unitOk (aoefMatchArgs a sc).1 && unitOk (aoefMatchArgs a sc).2
+def aoefEvalScoreOk (x : Rat) : Bool := unitOk (aoefEvalScoreArg x)
+def aoefPredictionOk (x t0 t1 : Rat) : Bool :=
+  unitOk (aoefPredictionArgs x t0 t1).1 && unitOk (aoefPredictionArgs x t0 t1).2.1 && unitOk (aoefPredictionArgs x t0 t1).2.2
+def aoefClipTagsOk (t0 t1 : Rat) : Bool := unitOk (aoefClipTagArgs t0 t1).1 && unitOk (aoefClipTagArgs t0 t1).2
 
 end SE.Relational
